@@ -19,7 +19,7 @@ SPEC = dict(
     level="exploration",
     rule=("histories of 1..12 steps over grammar-G patterns and generated layouts in real git repositories: step kinds "
           "update (random flags, non-decreasing --date), failing invocation (contradictory flags / lower --set-version), "
-          "--no-commit (then, sometimes, a manual commit), --no-tag-commit, unrelated commit, new branch, branch switch; "
+          "--no-commit (then, sometimes, a manual commit), --no-tag-commit, unrelated commit, an unrelated commit that destroys an occurrence (update must fail without effect, then repair), new branch, branch switch; every 6th history uses a legacy {..} pattern (updates, destroyed occurrence, repair, final probe); "
           "all three tag scopes (no-commit/no-tag steps only with scope default, where the config takes part in the "
           "start version); non-trivial+distinct = distinct (pattern shape, scope, step-kind sequence) with >= 2 "
           "successful updates"),
